@@ -1,0 +1,50 @@
+//go:build verif
+
+// Verification-only constructors (compiled only with -tags verif).  They set
+// unexported serviceInfo / annotation fields that the public K8sSvcWith…
+// options cannot set independently.  Add-only: nothing existing is changed.
+
+package proxy
+
+import k8sp "k8s.io/kubernetes/pkg/proxy"
+
+// VerifSvcWithTrafficPolicy sets the external / internal traffic policy "Local" flags independently.
+func VerifSvcWithTrafficPolicy(externalLocal, internalLocal bool) K8sServicePortOption {
+	return func(s any) {
+		s.(*servicePort).ServicePort.(*serviceInfo).nodeLocalExternal = externalLocal
+		s.(*servicePort).ServicePort.(*serviceInfo).nodeLocalInternal = internalLocal
+	}
+}
+
+// VerifSvcWithHealthCheckNodePort sets HealthCheckNodePort.
+func VerifSvcWithHealthCheckNodePort(p int) K8sServicePortOption {
+	return func(s any) {
+		s.(*servicePort).ServicePort.(*serviceInfo).healthCheckNodePort = p
+	}
+}
+
+// VerifSvcWithExclude sets the exclude-service annotation.
+func VerifSvcWithExclude() K8sServicePortOption {
+	return func(s any) {
+		s.(*servicePort).excludeService = true
+	}
+}
+
+// VerifSvcID is one entry of the syncer's newSvcMap (service key -> NAT service ID).
+type VerifSvcID struct {
+	Name  k8sp.ServicePortName
+	Extra string
+	ID    uint32
+	Count int
+}
+
+// VerifSvcIDs reports the service IDs chosen by the last Apply.  Which fresh ID a
+// new service gets depends on Go map iteration order; the harness passes the
+// observed choice to the model, which checks that it is a legal one.
+func (s *Syncer) VerifSvcIDs() []VerifSvcID {
+	out := make([]VerifSvcID, 0, len(s.newSvcMap))
+	for k, v := range s.newSvcMap {
+		out = append(out, VerifSvcID{Name: k.sname, Extra: k.extra, ID: v.id, Count: v.count})
+	}
+	return out
+}
